@@ -97,6 +97,11 @@ META: dict[str, dict[str, str]] = {
         "note": "Pickle protocol semantics (cls.__new__(cls, *__getnewargs__())) and Basic.__getnewargs__ = args are trusted." + COMMON_NOTE,
         "technique": "static analysis: hook resolution through import aliases, arity comparison of Expr.__new__ calls against __new__ signatures",
     },
+    "C19": {
+        "level": "Decides: the literal case table of formulate_zeta_angle partitions {1,2,3}^3 (with the diagonal rule) and every call shape of the DPD generator evaluates; the identities zeta^i_{k(k)}=0, zeta^i_{k(0)}=zeta^i_{k(i)}, antisymmetry, zeta^0 = theta-hat hold by construction; and all 18 cos zeta, 6 cos theta-hat and 6 cos theta_ij formulas equal their geometric definition derived in the checker from Lorentz-invariant products (rational functions over lambda^(1/2) atoms modulo the Mandelstam relation), cos theta_ij + cos theta_ji = 0; thorough tier: cyclic covariance incl. signs. arccos range, the cyclic sum rule as an arccosine identity and numerical agreement with four-vector angles are not decided.",
+        "note": "Rows are instantiated over the finite index domain by constant propagation (no execution); textbook two-body kinematics in the specification." + COMMON_NOTE,
+        "technique": "static analysis: case-table partition check, constant propagation over the index domain, term extraction and rational-function equality against an invariant-product specification",
+    },
     "C20": {
         "level": "The decided clauses are polynomial identities, so the static verdict is complete for them: Kallen symmetric and factorised, third Mandelstam sum rule, Kibble = lambda(lambda,lambda,lambda) with the right sigma/mass pairing (fully unfolded, 100+ monomials), and the Piecewise wiring of is_within_phasespace (non-strict <=, value 1, caller's outside_value). That Kibble<=0 characterises the Dalitz region is textbook mathematics and trusted.",
         "note": "Term extraction covers straight-line evaluate() bodies; formal polynomial algebra over Fraction coefficients." + COMMON_NOTE,
